@@ -26,7 +26,7 @@ import (
 type SubAction struct {
 	Kind string `json:"kind"` // emit | read | cancel | closeSource
 	// emit: what the payload makes field resolution do
-	Payload string `json:"payload,omitempty"` // ok | fieldError | nonNullFailure
+	Payload string `json:"payload,omitempty"` // ok | fieldError | nonNullFailure | nilEvent (the source sends nil)
 }
 
 type SubCase struct {
@@ -63,6 +63,16 @@ func c15Model() *model.Schema {
 
 // expectedFor computes the response the subscription's selection gives for one event.
 func expectedFor(query int, ev *subEvent) (data string, nErrors int) {
+	if ev.Payload == "nilEvent" {
+		// the source delivered a nil payload: every root field resolves to null
+		switch query {
+		case 0:
+			return `{"tick":null}`, 0
+		case 4:
+			return `{"k":null}`, 0
+		}
+		return `{"obj":null}`, 0
+	}
 	obj := func(fields ...string) (string, int) {
 		if ev.Payload == "nonNullFailure" && contains2(fields, "nn") {
 			return "null", 1
@@ -160,7 +170,12 @@ func c15Oracle(c *SubCase) (msg string, nontrivial bool) {
 				}
 				return nil, nil
 			},
-			"S.obj": func(p graphql.ResolveParams) (interface{}, error) { return p.Source, nil },
+			"S.obj": func(p graphql.ResolveParams) (interface{}, error) {
+			if e := ev(p); e != nil {
+				return e, nil
+			}
+			return nil, nil // a nil source event: whatever root value the library substitutes, obj is null
+		},
 			"EvObj.id": func(p graphql.ResolveParams) (interface{}, error) {
 				if e := ev(p); e != nil {
 					return e.ID, nil
@@ -293,8 +308,12 @@ func c15Oracle(c *SubCase) (msg string, nontrivial bool) {
 			}
 			e := &subEvent{ID: nextID, Payload: a.Payload}
 			nextID++
+			var payload interface{} = e
+			if a.Payload == "nilEvent" {
+				payload = nil
+			}
 			select {
-			case source <- e:
+			case source <- payload:
 				pending = append(pending, e)
 				if a.Payload != "ok" {
 					nontrivial = true
@@ -397,7 +416,7 @@ func TestC15(t *testing.T) {
 		for i, n := 0, gen.Intn(rt, 0, 10, "nActions"); i < n; i++ {
 			a := SubAction{Kind: kinds[gen.Uniform(rt, len(kinds), "kind")]}
 			if a.Kind == "emit" {
-				a.Payload = []string{"ok", "ok", "fieldError", "nonNullFailure"}[gen.Uniform(rt, 4, "payload")]
+				a.Payload = []string{"ok", "ok", "ok", "fieldError", "fieldError", "nonNullFailure", "nonNullFailure", "nilEvent"}[gen.Uniform(rt, 8, "payload")]
 			}
 			c.Actions = append(c.Actions, a)
 		}
